@@ -1,7 +1,7 @@
 #!/bin/sh
 # tools/verify_seed.sh <ID> <k>  -- confirm an agent's seeded change in its scratch worktree:
 #  (a) patch only: the existing suite passes; (b) demo only: passes; (c) patch + demo: the demo fails.
-ID="$1"; K="$2"; W=/tmp/wt/$ID; S=/tmp/seedout/$ID
+ID="$1"; K="$2"; W=/tmp/wt/$ID; S=${SEEDOUT:-/tmp/seedout}/$ID
 cd "$W" || exit 2
 summ() { grep -E "^test result" | awk '{p+=$4; f+=$6} END {printf "passed=%d failed=%d", p, f}'; }
 git checkout -q -- . ; git clean -fdq -e target
